@@ -320,11 +320,13 @@ pub struct Tr<'a> {
     /// `&mut [T]` parameters (read-only use is supported)
     mut_ref_params: Vec<String>,
     /// `let p = s.as_ptr();` — p stands for (slice term, slice type)
-    ptr_alias: HashMap<String, (String, Ty)>,
+    ptr_alias: HashMap<String, (String, Ty, Option<String>)>,
     /// generic parameters bounded by `Pattern` / `BytesPattern`: modelled as the pattern's bytes
     pattern_generics: Vec<String>,
     /// generic parameters replaced by concrete types (witness-arm targets)
     type_subst: HashMap<String, Ty>,
+    /// the function takes `&mut self`: it returns `(result, self)`
+    mut_self: bool,
 }
 
 fn ind(lines: Vec<String>, n: usize) -> Vec<String> {
@@ -420,7 +422,9 @@ impl<'a> Tr<'a> {
                         Some(t) => Ty::Adt(t.clone()),
                         None => Ty::Opaque("Self".into()),
                     },
-                    "ManuallyDrop" | "MaybeUninit" if targs.len() == 1 => self.conv_ty(targs[0]),
+                    "ManuallyDrop" if targs.len() == 1 => self.conv_ty(targs[0]),
+                    // an uninitialised slot is `none`
+                    "MaybeUninit" if targs.len() == 1 => Ty::Option(Box::new(self.conv_ty(targs[0]))),
                     "PhantomData" => Ty::Unit,
                     // a CStr is modelled as its bytes including the terminating nul
                     "CStr" => Ty::Slice(Box::new(Ty::Int(IntTy::U8))),
